@@ -94,12 +94,14 @@ def run(ctx):
     if not ctx.quick:
         plans.append(("reduced", [e1.REDUCED], 2))
     bounds = {}
+    # kp_reuse without any key on disk: the generated key must be installed too before success is reported (reduced alphabet in quick)
+    variants.append(("none", True))
     for pair, kp in variants:
         req = flows.issuance_request(pair=pair, kp_reuse=kp, attempts=3 if pair == "none" else 2,
                                      ca_cfg={"cert_lifetime_s": 20 * 86400})
         variant = "pair=%s|kp_reuse=%s" % (pair, kp)
         flows.determinism_selftest(ctx.pool, req)
-        for name, alpha, bound in plans:
+        for name, alpha, bound in (plans if not (ctx.quick and (pair, kp) == ("none", True)) else [("reduced", [e1.REDUCED], 1)]):
             def on_exec(r, o, s, variant=variant):
                 res.evaluations += 1
                 res.transitions += len(o.get("cps", []))
